@@ -30,6 +30,18 @@ add("C04", "exhaustive small-scope enumeration; differential oracle between the 
     "Every (program, goal) of the C01 corpus and of five text-level families (associated types, auto traits, built-in traits, lifetimes, custom clauses) is solved by a fresh SLG and a fresh recursive solver; None-vs-Unique, unequal Unique substitutions and a Unique that is not an instance of the other's Definite guidance are violations.",
     "No reference semantics involved; lifetime constraints not compared.",
     "DESIGN.md §4 C04")
+add("C05", "exhaustive small-scope enumeration of auto-trait programs x closed goals against a rule set written from the statement (greatest fixed point), plus explicit-state search over goal orders on one solver to closure",
+    "Every program of the auto-trait family (two ADTs with every pair of field lists from a menu incl. self and mutual recursion, struct or enum, six explicit-impl options incl. negative, single-instance and blanket impls) and every closed goal `ty: Send` over a type universe is solved by both solvers and compared with REF; then all orders of 5-6 interrelated goals are explored on one solver instance until no new solver state appears, each answer compared with the fresh-solver answer (a cached result that relied on a later-falsified cyclic assumption would differ). The #[coinductive] programs of the C01 corpus are included.",
+    "Trusted: the auto-trait rule as written in the property statement (harness/src/props/c05.rs) and REF's gfp evaluator.",
+    "DESIGN.md §4 C05")
+add("C06", "exhaustive small-scope enumeration of supertrait / where-clause structures x hypothesis sets x conclusions against an elaboration closure + lfp reference, plus explicit-state search over interleavings of hypothesis-carrying and hypothesis-free goals",
+    "Every program from the product of supertrait structures (flat, chain, diamond, cycle), where-clauses on a trait parameter, struct where-clauses and impl subsets; every goal forall<T> { if (H) { G } } for 8 hypothesis sets x 7 conclusions and the hypothesis-free versions; the solver must prove G exactly when G follows from the program and the elaborated hypotheses; histories interleaving both versions on one solver are explored to closure and every answer must equal the fresh-solver answer (no leak).",
+    "Trusted: the elaboration rule (trait hypothesis => the trait's where-clauses, FromEnv(type) => the struct's where-clauses, recursively) in harness/src/props/c06.rs.",
+    "DESIGN.md §4 C06")
+add("C08", "exhaustive enumeration of every type of a bounded universe x 5 built-in traits x programs against structural rules transcribed from the statement",
+    "For 48 programs (field lists of a struct x explicit impl sets) with the lang-item traits declared, every closed goal `ty: Sized|Copy|Clone|Tuple|FnPtr` over every type of depth <= 2 plus depth-3 wrappers (ADTs, enum, tuples 0-3, arrays, slices, str, refs, raw pointers, fn pointers, scalars, never, dyn) must be answered Unique/None exactly as the rule set says, by both solvers.",
+    "Trusted: the rule transcription in harness/src/props/c08.rs (builtin_rules).",
+    "DESIGN.md §4 C08")
 add("C09", "exhaustive small-scope enumeration x 6 configurations with a deterministic work budget (hook H1) and a wall-clock watchdog",
     "Every solve / solve_multiple call over the reduced C01 corpus and the growing families must return within a tick budget several times the largest count observed on returning calls, without panicking (the recursive solver's overflow-depth panic is allowed only where the search is that deep).",
     "Termination is decided in bounded form: 'returns within N ticks'. The budget and the observed maximum are in the evidence.",
@@ -66,6 +78,10 @@ add("C18", "exhaustive enumeration of type pairs / clause-goal pairs through cou
     "could_match = false must imply REF-non-unifiability (unknowns of the two sides kept apart) for every ordered pair of a set of types of depth <= 2 (3 thorough) over all constructor kinds and for clause/goal pairs of trait references; every impl whose header unifies with an atomic goal must be returned by impls_for_trait; and for every (program, goal, solver) of the reduced corpus the answer must be identical when a database wrapper returns all impls of the trait instead of the filtered list.",
     "Trusted: Robinson unification over the harness term language.",
     "DESIGN.md §4 C18")
+add("C26", "exhaustive enumeration of all types up to depth 2 (3 thorough) over every TyKind variant with lifetimes/consts of every kind in every position; interned flags compared with an independent bottom-up occurrence model",
+    "About 5*10^7 (quick) / 5*10^8 (thorough) distinct types are built with the real interner (which runs compute_flags) and the stored flags, masked to the occurrence flags, are compared with a reference computed on the harness's own AST from the flag doc comments; STILL_FURTHER_SPECIALIZABLE is masked out; four (flag, construct) pairs whose doc comment is ambiguous are don't-care.",
+    "Trusted: the occurrence model in harness/src/props/c26.rs. Written by a helper agent; mutants of compute_flags (dropped const type, dyn bound, ref lifetime, fn-pointer substitution flags) were all detected.",
+    "DESIGN.md §4 C26")
 add("C28", "exhaustive small-scope enumeration with a structural well-formedness monitor on every returned solution",
     "Every solution returned by either solver (and every enumerated SLG answer) over the reduced C01 corpus plus goals with lifetime/const unknowns and nested forall is checked: one entry per query variable, matching kinds, bound variables only at the solution's own binder and in range, no universe the query cannot name, no inference variables, and applying it to the query does not panic.",
     "The monitor reads chalk's values through the public visitor API.",
